@@ -36,6 +36,24 @@ func init() {
 	}
 }
 
+func hardFor(c *Case) time.Duration {
+	if c.Patient {
+		return 60000
+	}
+	return hardMs - softMs
+}
+
+// softFor: tiny token-sequence programs that still run after 400 ms are loops
+func softFor(c *Case) time.Duration {
+	if (c.Fam == "src" && c.Rep == 0) || (c.Fam == "text" && !c.Patient) {
+		return 400
+	}
+	if c.Fam == "rec" && c.D > 1000 {
+		return 8000
+	}
+	return softMs
+}
+
 func rssMB() int {
 	b, err := os.ReadFile("/proc/self/statm")
 	if err != nil {
@@ -92,7 +110,7 @@ func workerMain() {
 				var o Obs
 				select {
 				case o = <-done:
-				case <-time.After(softMs * time.Millisecond):
+				case <-time.After(softFor(&c) * time.Millisecond):
 					vmMu.Lock()
 					vm := vmRef
 					vmMu.Unlock()
@@ -104,7 +122,7 @@ func workerMain() {
 					}
 					select {
 					case o = <-done:
-					case <-time.After((hardMs - softMs) * time.Millisecond):
+					case <-time.After(hardFor(&c) * time.Millisecond):
 						mu.Lock()
 						reply(Obs{Kind: "wedged", Msg: fmt.Sprintf("no reply %d ms after the interrupt was armed", hardMs-softMs)})
 						os.Exit(3)
@@ -183,8 +201,8 @@ func (w *Worker) stop() {
 	if w.cmd == nil {
 		return
 	}
-	w.in.Close()
 	w.cmd.Process.Kill()
+	w.in.Close()
 	w.cmd.Wait()
 	w.outF.Close()
 	w.cmd = nil
@@ -193,51 +211,94 @@ func (w *Worker) stop() {
 // Close ends the subprocess.
 func (w *Worker) Close() { w.stop() }
 
-// Do performs one case in the subprocess and returns its reply.  A reply of
-// kind "crash" means the subprocess died (Go fatal error); "wedged" that the
-// call neither returned nor reacted to the interrupt; "killed" that the
-// resource guard fired.
+// Do performs one case in the subprocess and returns its reply.
 func (w *Worker) Do(c *Case) (Obs, error) {
-	if w.cmd == nil {
-		if err := w.start(); err != nil {
-			return Obs{}, err
+	r, err := w.DoBatch([]*Case{c})
+	if err != nil {
+		return Obs{}, err
+	}
+	return r[0], nil
+}
+
+// DoBatch performs the cases in order (pipelined: all are written, then the
+// replies are read) and returns their replies.  A reply of kind "crash" means
+// the subprocess died (Go fatal error); "wedged" that the call neither
+// returned nor reacted to the interrupt; "killed" that the resource guard
+// fired.  After such a reply the rest of the batch runs on a new subprocess.
+func (w *Worker) DoBatch(cs []*Case) ([]Obs, error) {
+	out := make([]Obs, 0, len(cs))
+	for len(out) < len(cs) {
+		rest := cs[len(out):]
+		if w.cmd == nil {
+			if err := w.start(); err != nil {
+				return nil, err
+			}
+		}
+		var buf []byte
+		for _, c := range rest {
+			b, _ := json.Marshal(c)
+			buf = append(buf, b...)
+			buf = append(buf, '\n')
+		}
+		werr := make(chan error, 1)
+		go func(in io.Writer) { _, e := in.Write(buf); werr <- e }(w.in)
+		failed := false
+		for range rest {
+			o, alive, err := w.readReply()
+			if err != nil {
+				w.stop()
+				return nil, err
+			}
+			out = append(out, o)
+			if !alive {
+				failed = true
+				break
+			}
+		}
+		if failed {
+			w.stop()
+			continue
+		}
+		if e := <-werr; e != nil {
+			w.stop()
+			return nil, fmt.Errorf("worker pipe: %v", e)
 		}
 	}
-	b, _ := json.Marshal(c)
-	if _, err := w.in.Write(append(b, '\n')); err != nil {
-		w.stop()
-		return Obs{}, fmt.Errorf("worker pipe: %v", err)
-	}
-	type rd struct {
-		line []byte
-		err  error
-	}
-	ch := make(chan rd, 1)
-	go func() { l, e := w.out.ReadBytes('\n'); ch <- rd{l, e} }()
+	return out, nil
+}
+
+type replyLine struct {
+	line []byte
+	err  error
+}
+
+// readReply reads one reply; alive = false when the subprocess is gone or must be replaced.
+func (w *Worker) readReply() (Obs, bool, error) {
+	ch := make(chan replyLine, 1)
+	rd := w.out
+	go func() { l, e := rd.ReadBytes('\n'); ch <- replyLine{l, e} }()
 	select {
 	case r := <-ch:
 		if r.err != nil {
 			// the subprocess died without a reply
+			w.in.Close()
 			w.cmd.Wait()
 			msg := w.errBuf.String()
 			code := w.cmd.ProcessState.ExitCode()
-			w.cmd = nil
-			w.in.Close()
 			w.outF.Close()
-			return Obs{Kind: "crash", Class: firstLine(msg), Msg: fmt.Sprintf("worker exit %d: %s", code, trunc(msg, 600))}, nil
+			w.cmd = nil
+			return Obs{Kind: "crash", Class: firstLine(msg), Msg: fmt.Sprintf("worker exit %d: %s", code, trunc(msg, 600))}, false, nil
 		}
 		var o Obs
 		if err := json.Unmarshal(r.line, &o); err != nil {
-			w.stop()
-			return Obs{}, fmt.Errorf("worker reply: %v", err)
+			return Obs{}, false, fmt.Errorf("worker reply: %v", err)
 		}
 		if o.Kind == "wedged" || o.Kind == "killed" {
-			w.stop()
+			return o, false, nil
 		}
-		return o, nil
-	case <-time.After((hardMs + 6000) * time.Millisecond):
-		w.stop()
-		return Obs{Kind: "wedged", Msg: "worker silent; killed by the parent"}, nil
+		return o, true, nil
+	case <-time.After((hardMs + 70000) * time.Millisecond):
+		return Obs{Kind: "wedged", Msg: "worker silent; killed by the parent"}, false, nil
 	}
 }
 
